@@ -78,7 +78,8 @@ type Config struct {
 	PCTLen     int     // change points are drawn in [0,PCTLen)
 	FairAfter  int     // switch to uniform after this many steps
 	MaxSteps   int
-	KeepEvents int // number of trace events kept for replay files / samples
+	KeepEvents int  // number of trace events kept for replay files / samples
+	Big        bool // deeper bounds for this run (thorough tier: half of the runs)
 }
 
 type Event struct {
@@ -740,6 +741,15 @@ func Stamp() int64 {
 	s := S
 	s.stamp++
 	return s.stamp
+}
+
+// Scale is 2 in runs with deeper bounds (thorough tier, half of the runs) and 1 otherwise; harnesses
+// multiply their size bounds by it.
+func Scale() int {
+	if s := S; s != nil && s.cfg.Big {
+		return 2
+	}
+	return 1
 }
 
 // Steps returns the number of scheduling steps so far.
